@@ -181,7 +181,7 @@ def rounds(ctx, shard, nshards):
     V = Viol(sub, "C16")
     rnd = random.Random(ctx.sub_seed("c16", shard))
     B = boundary()
-    for it in range(100 if not ctx.thorough else 4000):
+    for it in range(1200 if not ctx.thorough else 12000):
         spec = gen_spec(rnd)
         nextp = rnd.random() < 0.4
         ik = rnd.choice(spec["inputs"])
